@@ -95,7 +95,7 @@ def doWrap (alias : Str) (args : List Str) (vars : Vars) (ctx : Str) (b : Script
       match firstCommand is with
       | none => bad
       | some native =>
-        let body := scriptBody (semFor native b cmd.scopeName) 10000 is
+        let body := scriptBody (semFor native b cmd.scopeName) (fun _ => false) 10000 is
         let (r, vars', st') := aliasRun storeOps cmd.argumentsAmount body cmd.scopeName args vars
           { handles := [], ctx := ctx }
         encRes r ++ " " ++ encVars vars' ++ " " ++ toString st'.handles.length ++ " " ++ encStr st'.ctx
